@@ -9,7 +9,52 @@
 //     accepted (with the same witnesses, and with that branch's witnesses removed)
 //   - wire: library encoding == reference encoding; decoding succeeds iff nesting <= 32
 //
-// Mutant table: see the end of this comment block (filled in after the sensitivity runs).
+// Known finding kept open: C14/after-time-overflow (TestKnown) — after(t) with
+// t > MaxInt64-62135596800 s wraps inside time.Unix and is satisfied at any median time;
+// generators leave that class out only while the key is listed as open.
+//
+// Sensitivity (./run C14 quick against seeded mutants via tools/with_mutant.sh; the
+// driver does not stop early, so "s" is the wall time of the whole quick run on a machine
+// shared with other builders, load 60-180):
+//
+//	id   mutant                                                                 result    s    failing key
+//	M01  policy.go threshold: line 173 `satisfied == p.N` -> false and 181 == -> >=  killed   49  C14/verdict
+//	M02  threshold final check `== p.N` -> `<= p.N`                             killed   50  C14/verdict, C14/opacified-accepted
+//	M03  above: `height >= p` -> `height > p`                                   killed   40  C14/verdict
+//	M04  after: `After(t)` -> `!Before(t)`                                      killed   31  C14/verdict
+//	M05  superfluous-signature check dropped                                    killed   40  C14/verdict
+//	M06  superfluous-preimage check dropped                                     killed   41  C14/verdict
+//	M07  hash leaf consumes no preimage                                         killed   55  C14/verdict
+//	M08  pk leaf consumes no signature                                          killed   71  C14/verdict
+//	M09  Address: children not replaced by their opaque form                    killed   31  C14/address
+//	M10  maxPolicies 1024 -> 1025                                               killed  128  C14/verdict (TestLimits)
+//	M11  maxPolicies 1024 -> 1023                                               killed  117  C14/verdict (TestLimits)
+//	M12  threshold width limit 255 -> 256                                       killed  147  C14/verdict (TestLimits)
+//	M13  uc: entropy key treated as unknown algorithm                           killed  134  C14/verdict
+//	M14  uc: ed25519 key accepts any signature                                  killed  157  C14/verdict
+//	M15  uc: timelock ignored                                                   killed  121  C14/verdict
+//	M16  threshold: uc sub-policy allowed                                       killed   86  C14/verdict
+//	M17  threshold: failing revealed child skipped instead of fatal             killed  119  C14/verdict
+//	M18  hash leaf accepts any preimage                                         killed   74  C14/verdict
+//	M19  PolicyOpaque re-wraps an already opaque policy                         killed   66  C14/address
+//	M20  pk leaf: missing signature accepted                                    killed   81  C14/verdict
+//	M21  complexity not accumulated across thresholds (`+=` -> `=`)             killed  175  C14/verdict (TestLimits)
+//	M22  uc: `required > len(sigs)` -> `>=`                                     killed  140  C14/verdict
+//	M23  uc: matched ed25519 signature not consumed                             killed  125  C14/verdict
+//	M24  hash.go unlockConditionsRoot: timelock leaf hashes SignaturesRequired  killed   28  C14/address
+//	M25  hash.go StandardAddress: wrong opcode byte                             killed  127  C14/address
+//	M26  hash.go StandardUnlockHash: wrong precomputed leaf constant            killed  127  C14/address
+//	M27  encoding.go maxPolicyDepth 32 -> 31                                    killed   98  C14/decode-depth
+//	M28  encoding.go depth check allows 33                                      killed   96  C14/decode-depth
+//	M29  encoding.go threshold N encoded as N&0x7f (address collision n>=128)   killed   78  C14/address
+//	M30  opaque child counted as satisfied                                      killed   54  C14/opacified-accepted
+//	M31  blake2b Accumulator.Root: operands swapped when folding                killed   27  C14/address
+//	M32  opaque policy holds on its own (`return errOpaque` -> nil)             killed   86  C14/verdict
+//	M33  uc: unknown-algorithm key does not consume a signature                 killed   97  C14/verdict
+//	M34  uc: loop keeps walking keys after required reached 0                   killed   50  panic (index out of range) reported as failure
+//	M35  threshold final check `== p.N` -> `>= p.N` alone                       survived (equivalent: line 173 rejects the N+1st revealed child first)
+//	M36  uc: `required > keys remaining` early exit disabled                    survived (equivalent: each key position yields at most one signature, so required cannot reach 0)
+//	FIX  after: `medianTimestamp.Unix() > time.Time(p).Unix()` (proposed fix), exclusion off: TestKnown clean, TestRandom 150k + TestConsensus 50k pass
 package c14
 
 import (
